@@ -241,9 +241,13 @@ def make_convention(it, c, convention, **kw):
     from pyvc.api import cls
     mod, name, builder = BUILDERS[convention]
     order = kw.pop('coordinate_order', None)
+    explicit = kw.pop('explicit_names', False)
     ds = builder(c, **kw)
     klass = cls(it, mod, name)
     ctor = {}
+    if explicit:
+        # the coordinate variables named by the caller (the documented route for files without CF attributes): CFGrid(dataset, latitude=..., longitude=...)
+        ctor['latitude'], ctor['longitude'] = ds.info['lat'], ds.info['lon']
     if order is not None:
         # ArakawaC given its coordinate names as a mapping, listed in the caller's order (any order is legal for a mapping)
         kinds = cls(it, 'emsarray.conventions.arakawa_c', 'ArakawaCGridKind')
